@@ -1086,6 +1086,7 @@ def run(ctx: Ctx) -> None:
 
 # ---------------------------------------------------------------------------
 WITNESSES = [
+    {"name": "seeded-C16-10", "file": "utils/derivatives/complex_step.py", "old": "            raise ValueError(msg)\n        return super().f_gradient(x_vect, step=step, x_indices=x_indices, **kwargs)\n\n", "new": "            raise ValueError(msg)\n        return super().f_gradient(x_vect, step=step, **kwargs)\n\n", "expect": "16.5", "note": "ComplexStep.f_gradient override no longer forwards x_indices to the base impleme"},
     {"name": "centred-steps-not-restricted", "file": CD, "old": "        if isinstance(step, ndarray):\n            # One step per input component: keep the ones of the differentiated ones.\n            step = step[input_indices]\n\n        if self._design_space is None:\n            input_perturbations[input_indices, range(n_indices)] += step\n            input_perturbations[input_indices, range(n_indices, 2 * n_indices)] -= step", "new": "        if self._design_space is None:\n            input_perturbations[input_indices, range(n_indices)] += step\n            input_perturbations[input_indices, range(n_indices, 2 * n_indices)] -= step", "expect": "16.1"},
     {"name": "optimal-step-called-after-the-context", "file": DA, "old": "        with self.__set_zero_cache_tol():\n            steps_opt, errors = self.approximator.compute_optimal_step(\n                x_vect, numerical_error=numerical_error\n            )\n", "new": "        with self.__set_zero_cache_tol():\n            compute_opt_step = self.approximator.compute_optimal_step\n\n        steps_opt, errors = compute_opt_step(x_vect, numerical_error=numerical_error)\n", "expect": "16.6"},
     {"name": "centred-upper-bounds-from-lower", "file": CD, "old": "            upper_bounds = normalize_vect(upper_bounds)", "new": "            upper_bounds = normalize_vect(lower_bounds)", "expect": "16.4"},
